@@ -66,7 +66,7 @@ def run(outcome, tier, seed):
         stdin = b'{"from":"stdin","pad":"' + b"s" * 300 + b'"}\n'
         inputs = [["a.json"], ["mid.json"], ["big.json"], ["a.json", "b.yaml"], ["a.json", "big.json"], ["big.json", "a.json"],
                   ["empty.json"], ["empty.json", "a.json"], ["-"], [], ["a.json", "-", "big.json"], ["missing.json"], ["a.json", "missing.json"],
-                  ["bad.json"], ["huge.json"]] + [["docs%d.json" % L] for L in range(1, 7)] + [["a.json", "docs2.json"]]
+                  ["bad.json"], ["huge.json"], ["bigbad.json"], ["bigtwo.json"], ["a.json", "bigbad.json"], ["longlines.json"]] + [["docs%d.json" % L] for L in range(1, 7)] + [["a.json", "docs2.json"]]
         for names in inputs:
             for to in ("json", "yaml", "msgpack", "toml"):
                 if to == "toml" and len([n for n in names if n != "empty.json"]) > 1:
@@ -114,6 +114,15 @@ def run(outcome, tier, seed):
                     cons.append((cli.Case(["-t", to, name], None, "consume", close_after=k), total, k))
                     cons.append((cli.Case(["-t", to, "a.json", name, "a.json"], None, "consume", close_after=k), total, k))
             cons.append((cli.Case(["-t", to], open(fx.path(name), "rb").read(), "consume", close_after=ks[3]), total, ks[3]))
+        # a consumer that leaves in the middle of the last write while xt still waits for input: what is left over is written
+        # (and the broken pipe met) only by the final flush.  A single string of 8 KiB or more holding a line feed near its end.
+        for size in (8192, 9000, 20000):
+            for tail in (1, 100, 1023):
+                body = b"s" * (size - tail - 1) + b"\n" + b"t" * tail
+                doc = b'"' + body.replace(b"\n", b"\\n") + b'"'
+                for to, header in (("msgpack", 3 if size < 65536 else 5), ("json", 1)):
+                    k = header + size - tail if to == "msgpack" else 1 + 100
+                    cons.append((cli.Case(["-f", "json", "-t", to], doc, "consume_hold", close_after=k), (header + size) * 1 + PIPE_CAP + cli.BCAP + 1 + k, k))
         import concurrent.futures
         with concurrent.futures.ThreadPoolExecutor(8) as ex:
             outs = list(ex.map(lambda t: run_case(common.XT_DEBUG, fx.dir, t[0]), cons))
